@@ -636,7 +636,14 @@ def check_initial(rep, repo, f, table, init):
     if plen is None:
         rep.inconclusive('C07.R5', gp.where, 'length of the profile returned by _get_profile is [0] * N', got=show(gp_rv)[:100])
     else:
-        rep.check(alpha(plen) == alpha(mr_rv), 'C07.R5', gp.where, '_get_profile returns one counter per rank up to the maximum rank', got=show(plen)[:100], want='_get_max_rank()',
+        from ..canon import canon as _canon, equiv as _equiv
+        same = alpha(plen) == alpha(mr_rv)
+        if not same:
+            try:
+                same = _equiv(_canon(plen), _canon(mr_rv))
+            except Unknown:
+                same = False
+        rep.check(same, 'C07.R5', gp.where, '_get_profile returns one counter per rank up to the maximum rank', got=show(plen)[:100], want='_get_max_rank()',
                   construct='profile length')
     for attr, (label, tier_, helper, order) in sorted(table.items()):
         if tier_ != 'all':
@@ -693,6 +700,18 @@ def list_length(t):
         d = t[1][0][0][3]
         if d[0] == 'call' and d[1] == S('range') and len(d[2]) == 1:
             return d[2][0]
+        if d[0] == 'call' and d[1] == S('range') and len(d[2]) == 2:
+            lo, hi = d[2]
+            if lo == C(0):
+                return hi
+            if lo[0] == 'const' and isinstance(lo[1], int) and hi[0] == 'bin' and hi[1] == 'Add' and hi[3] == lo:
+                return hi[2]                      # range(c, N + c)
+            if lo[0] == 'const' and isinstance(lo[1], int) and hi[0] == 'bin' and hi[1] == 'Add' and hi[2] == lo:
+                return hi[3]
+        if d[0] not in ('call',) :
+            return list_length(d)                 # one entry per element of another list
+    if t[0] == 'call' and t[1] == S('list') and len(t[2]) == 1:
+        return list_length(t[2][0])
     return None
 
 
@@ -721,6 +740,8 @@ def dominates_bound(repo, v, kind):
             return patom('MAXLUQ')
         if t == CALL(S('sum'), [luq]):
             return patom('SUMLUQ')
+        if t[0] == 'call' and t[1] in (S('max'), S('sum')) and len(t[2]) == 1 and lp.model_attr(t[2][0]) in OTHER_LISTS:
+            return patom(('MAX' if t[1] == S('max') else 'SUM') + OTHER_LISTS[lp.model_attr(t[2][0])])
         a = lp.model_attr(t)
         if a in ('num_lecturers', 'num_students', 'num_projects'):
             return patom({'num_lecturers': 'L', 'num_students': 'n', 'num_projects': 'P'}[a])
@@ -738,7 +759,34 @@ def dominates_bound(repo, v, kind):
         d = psub(p, bnd)
         if all(c >= 0 for c in d.values()):
             return True
+    # witness instances: one valuation of the atoms each, with the largest deviation a valid matching attains on it
+    for w in WITNESSES:
+        val = 0
+        for mono, c in p.items():
+            term = c
+            for a_ in mono:
+                term *= w['atoms'][a_]
+            val += term
+        worst = w['max'] if kind == 'max' else w['sum']
+        if val < worst:
+            return 'on the instance {%s} it is %d, while a valid matching with %s deviation %d exists' % (w['text'], val, 'maximum' if kind == 'max' else 'total', worst)
+    if any(a_ not in ('MAXLUQ', 'SUMLUQ', 'L') for mono in p for a_ in mono):
+        return None
     return 'not shown to be >= %s' % (' or '.join(pshow(x) for x in bounds))
+
+
+OTHER_LISTS = {'lec_targets': 'TGT', 'lec_lower_quotas': 'LLQ', 'proj_upper_quotas': 'PUQ', 'proj_lower_quotas': 'PLQ'}
+# lecturers as (lower quota, target, upper quota); every project has room for all students of its lecturer
+WITNESSES = [
+    {'text': 'one lecturer (lq 0, target 1, uq 5), 5 students, one project with 5 places', 'max': 4, 'sum': 4,
+     'atoms': {'MAXLUQ': 5, 'SUMLUQ': 5, 'MAXTGT': 1, 'SUMTGT': 1, 'MAXLLQ': 0, 'SUMLLQ': 0, 'MAXPUQ': 5, 'SUMPUQ': 5, 'MAXPLQ': 0, 'SUMPLQ': 0, 'L': 1, 'n': 5, 'P': 1}},
+    {'text': 'two lecturers (lq 0, target 3, uq 3), no student', 'max': 3, 'sum': 6,
+     'atoms': {'MAXLUQ': 3, 'SUMLUQ': 6, 'MAXTGT': 3, 'SUMTGT': 6, 'MAXLLQ': 0, 'SUMLLQ': 0, 'MAXPUQ': 3, 'SUMPUQ': 6, 'MAXPLQ': 0, 'SUMPLQ': 0, 'L': 2, 'n': 0, 'P': 2}},
+    {'text': 'three lecturers (lq 0, target 0, uq 2), 6 students, three projects with 2 places', 'max': 2, 'sum': 6,
+     'atoms': {'MAXLUQ': 2, 'SUMLUQ': 6, 'MAXTGT': 0, 'SUMTGT': 0, 'MAXLLQ': 0, 'SUMLLQ': 0, 'MAXPUQ': 2, 'SUMPUQ': 6, 'MAXPLQ': 0, 'SUMPLQ': 0, 'L': 3, 'n': 6, 'P': 3}},
+    {'text': 'one lecturer (lq 0, target 0, uq 4) offering four projects with 1 place, 4 students', 'max': 4, 'sum': 4,
+     'atoms': {'MAXLUQ': 4, 'SUMLUQ': 4, 'MAXTGT': 0, 'SUMTGT': 0, 'MAXLLQ': 0, 'SUMLLQ': 0, 'MAXPUQ': 1, 'SUMPUQ': 4, 'MAXPLQ': 0, 'SUMPLQ': 0, 'L': 1, 'n': 4, 'P': 4}},
+]
 
 
 # ---- R2 validity table ---------------------------------------------------------------------------------------------
@@ -749,6 +797,14 @@ QUOTAS = {'proj_lower_quotas': ('lq', 'P'), 'proj_upper_quotas': ('uq', 'P'), 'l
 
 def count_sort(t, param):
     """t = the array of assignment counts per agent of one sort, built from `param` -> sort or None"""
+    if t[0] == 'call' and t[1] in (S('Counter'), A(S('collections'), 'Counter')) and len(t[2]) == 1 and t[2][0][0] == 'comp' and len(t[2][0][1]) == 1:
+        bb, g = t[2][0][1][0]
+        key = t[2][0][2]
+        if bb[3] == param and key[0] == 'attr' and key[1] == bb:
+            for srt, k in KEY_OF.items():
+                if key[2] == k and g == TRUE:
+                    return srt
+            return ('BAD', 'a Counter over pair.%s%s' % (key[2], '' if g == TRUE else ' under ' + show(g)))
     if t[0] == 'accum' and len(t[2]) == 1:
         n = list_length(t[1])
         op, idx, val, ch = t[2][0]
@@ -781,11 +837,48 @@ def check_validity(rep, repo):
         for e in es:
             if e.kind == 'call':
                 out += [x for x in flat(e.body) if x.kind != 'return']      # the callee's own return resumes here
+            elif e.kind == 'if' and getattr(e, 'synthetic', False) and not e.orelse:
+                out += flat(e.then)             # the statements after `if c: return False`, which run when c is false
             else:
                 out.append(e)
         return out
     top = flat(effs)
-    check_loops = []      # (sort, for-effect)
+
+    def is_counter(t):
+        return t[0] == 'call' and t[1] in (S('Counter'), A(S('collections'), 'Counter'))
+
+    def domain_kind(b):
+        """-> (sort, present_only, count terms, index terms) of a loop / comprehension binder, or None"""
+        dom = b[3]
+        if dom == param:
+            return ('pair', False, [], [])
+        if dom[0] == 'call' and dom[1] == S('range') and len(dom[2]) == 1 and lp.model_attr(dom[2][0]) in SORT_OF:
+            return (SORT_OF[lp.model_attr(dom[2][0])], False, [], [b, ('indexof', b)])
+        if dom[0] == 'call' and dom[1][0] == 'attr' and not dom[2] and is_counter(dom[1][1]):
+            cs = count_sort(dom[1][1], param)
+            if isinstance(cs, str):
+                if dom[1][2] == 'values':
+                    return (cs, True, [b], [])
+                if dom[1][2] == 'items':
+                    return (cs, True, [I(b, C(1))], [I(b, C(0))])
+                if dom[1][2] == 'keys':
+                    return (cs, True, [], [b])
+            return None
+        if is_counter(dom):
+            cs = count_sort(dom, param)
+            return (cs, True, [], [b]) if isinstance(cs, str) else None
+        cs = count_sort(dom, param)
+        if isinstance(cs, str):
+            return (cs, False, [b], [('indexof', b)])
+        return None
+
+    class Unit:
+        """one rejecting check: a loop with `return False` inside, or `if any(<comprehension>): return False`"""
+        def __init__(self, binder, kind, body=None, guard=TRUE, cond=None, neg=False, loc=None):
+            self.binder, self.body, self.guard, self.cond, self.neg, self.loc = binder, body, guard, cond, neg, loc
+            self.sort, self.present_only, self.counts, self.indices = kind
+
+    check_loops = []
     none_checked = False
     kind_errors = []
     final = None
@@ -793,19 +886,13 @@ def check_validity(rep, repo):
         if e.kind == 'for':
             has_ret = any(x.kind == 'return' for x, c in iter_effects(e.body))
             b = e.binder
-            dom = b[3]
-            if dom == param:
-                sort = 'pair'
-            elif dom[0] == 'call' and dom[1] == S('range') and len(dom[2]) == 1 and lp.model_attr(dom[2][0]) in SORT_OF:
-                sort = SORT_OF[lp.model_attr(dom[2][0])]
-            else:
-                cs = count_sort(dom, param)
-                sort = cs if isinstance(cs, str) else None
+            kind = domain_kind(b)
+            sort = kind[0] if kind else None
             if has_ret:
-                if sort is None:
-                    rep.inconclusive('C07.R2', f.where, 'every rejecting loop ranges over the pairs or over the agents of one sort', got=show(dom)[:100], loc=e.loc)
+                if kind is None:
+                    rep.inconclusive('C07.R2', f.where, 'every rejecting loop ranges over the pairs or over the agents of one sort', got=show(b[3])[:100], loc=e.loc)
                     return
-                check_loops.append((sort, e))
+                check_loops.append(Unit(b, kind, body=e.body, loc=e.loc))
             else:
                 # a counting loop: pair attributes are read, absent pairs must have been rejected before
                 touches = any(contains(getattr(x, 'index', None) or NONE, lambda y: y[0] == 'attr' and y[1] == b) for x, c in iter_effects(e.body) if x.kind == 'acc')
@@ -818,36 +905,90 @@ def check_validity(rep, repo):
                 none_checked = True
         elif e.kind == 'return':
             final = e.value
+            # return all(ok(x) for x in D) [and ...]: the last checks folded into the verdict
+            parts = list(final[2]) if (final[0] == 'bool' and final[1] == 'and') else [final]
+            units = []
+            for c in parts:
+                neg = False
+                if c[0] == 'not':
+                    c, neg = c[1], True
+                if c[0] == 'call' and c[1] in (S('any'), S('all')) and len(c[2]) == 1 and c[2][0][0] == 'comp' and len(c[2][0][1]) == 1 and ((c[1] == S('all')) != neg):
+                    b, g = c[2][0][1][0]
+                    kind = domain_kind(b)
+                    if kind is not None:
+                        units.append(Unit(b, kind, guard=g, cond=c[2][0][2], neg=(c[1] == S('all')), loc=e.loc))
+                        continue
+                units = None
+                break
+            if units:
+                check_loops += units
+                final = TRUE
             break
         elif e.kind in ('acc', 'callo', 'expr', 'store'):
             continue
         elif e.kind == 'if':
-            rep.inconclusive('C07.R2', f.where, 'top-level statements of is_valid are loops and a final return', got='if ' + show(e.cond)[:80], loc=e.loc)
-            return
+            # if any(test(x) for x in D): return False      /      if not all(test(x) for x in D): return False
+            c = e.cond
+            neg = False
+            if c[0] == 'not':
+                c, neg = c[1], True
+            rets = [x for x in e.then if x.kind == 'return']
+            ok_shape = c[0] == 'call' and c[1] in (S('any'), S('all')) and len(c[2]) == 1 and c[2][0][0] == 'comp' and len(c[2][0][1]) == 1 \
+                and ((c[1] == S('any')) != neg) and len(e.then) == 1 and rets and rets[0].value == FALSE and not e.orelse
+            if not ok_shape:
+                rep.inconclusive('C07.R2', f.where, 'top-level statements of is_valid are loops and a final return', got='if ' + show(e.cond)[:80], loc=e.loc)
+                return
+            b, g = c[2][0][1][0]
+            kind = domain_kind(b)
+            if kind is None:
+                rep.inconclusive('C07.R2', f.where, 'every rejecting test ranges over the pairs or over the agents of one sort', got=show(b[3])[:100], loc=e.loc)
+                return
+            if kind[0] == 'pair' and not none_checked:
+                # the counters above this statement read pair attributes: were they built before None was rejected?
+                pass
+            check_loops.append(Unit(b, kind, guard=g, cond=c[2][0][2], neg=(c[1] == S('all')), loc=e.loc))
+            if kind[0] == 'pair':
+                none_checked = True
+    # a Counter over pair attributes is evaluated where it is built: absent pairs must have been rejected before
+    order_seen_none = False
+    for e in top:
+        if (e.kind == 'for' and domain_kind(e.binder) and domain_kind(e.binder)[0] == 'pair' and any(x.kind == 'return' for x, c in iter_effects(e.body))) \
+                or (e.kind == 'if' and contains(e.cond, lambda y: y == param) and not contains(e.cond, is_counter)):
+            order_seen_none = True
+        terms = [v for k_, v in e.__dict__.items() if isinstance(v, tuple) and v and isinstance(v[0], str)]
+        if not order_seen_none and any(contains(t_, is_counter) for t_ in terms):
+            rep.fail('C07.R2', f.where, 'attributes of a pair are read only after absent pairs (None) were rejected: the check never fails', got='Counter over pair attributes before the None check',
+                     construct='None check order', loc=e.loc)
+            break
     rep.check(final == TRUE, 'C07.R2', f.where, 'an assignment that passes every check is valid (final return True)', got=None if final is None else show(final), want='True', construct='final verdict')
     consts = set()
-    for s_, e in check_loops:
-        for x, c in iter_effects(e.body):
+    for u in check_loops:
+        for x, c in iter_effects(u.body or []):
             for t in ([x.cond] if x.kind == 'if' else []):
                 consts |= {y[1] for y in walk(t) if is_num(y) and isinstance(y[1], int)}
+        for t in ([u.cond, u.guard] if u.cond is not None else []):
+            consts |= {y[1] for y in walk(t) if is_num(y) and isinstance(y[1], int)}
     K = max([1] + [c for c in consts if c >= 0]) + 3
 
     def verdict(sort, val):
         """does any check loop of this sort reject an element with this valuation?  -> True/False, raising on errors"""
         rejected = False
-        for s_, e in check_loops:
-            if s_ != sort:
+        for u in check_loops:
+            if u.sort != sort:
                 continue
-            b = e.binder
-            ixs = [b, ('indexof', b)]
-            def atom(t, b=b, ixs=ixs, e=e):
+            if u.present_only and sort != 'pair' and val['c'] == 0:
+                continue                      # the check only visits agents that occur in the matching
+            b = u.binder
+            def atom(t, b=b, u=u):
                 if sort == 'pair':
                     if t == b:
                         return val['elem']
                     return NOATOM
                 if t == PC:
                     return val['pc']
-                if t[0] == 'idx' and t[2] in ixs:
+                if t in u.counts:
+                    return Abs('num', 'c')
+                if t[0] == 'idx' and t[2] in u.indices:
                     a = lp.model_attr(t[1])
                     if a in QUOTAS:
                         nm, srt = QUOTAS[a]
@@ -862,8 +1003,12 @@ def check_validity(rep, repo):
                         if cs != sort:
                             kind_errors.append('count per %s read at a %s index' % (cs, sort))
                         return Abs('num', 'c')
-                if t == b and e.binder[3][0] == 'accum':
-                    return Abs('num', 'c')            # iterating the count array itself
+                if t[0] == 'call' and t[1][0] == 'attr' and t[1][2] == 'get' and len(t[2]) == 2 and t[2][0] in u.indices and t[2][1] == C(0):
+                    cs = count_sort(t[1][1], param)
+                    if isinstance(cs, str):
+                        if cs != sort:
+                            kind_errors.append('count per %s read at a %s index' % (cs, sort))
+                        return Abs('num', 'c')
                 return NOATOM
             def cmp(op, a, c):
                 def num(x):
@@ -877,8 +1022,15 @@ def check_validity(rep, repo):
                     return NOATOM
                 return order_cmp(op, 'lt' if x < y else ('eq' if x == y else 'gt'))
             te = TermEval(atom, cmp)
+            if u.body is None:
+                if te.truth(te.ev(u.guard)):
+                    hit = te.truth(te.ev(u.cond))
+                    if u.neg:
+                        hit = not hit
+                    rejected = rejected or hit
+                continue
             try:
-                te.run(e.body, lambda eff: eff.kind in ('acc',))
+                te.run(u.body, lambda eff: eff.kind in ('acc',))
             except Leave as lv:
                 if lv.kind == 'return':
                     if lv.value is False:
@@ -892,7 +1044,7 @@ def check_validity(rep, repo):
     try:
         # absent pairs
         n_val = 0
-        if not any(s_ == 'pair' for s_, e in check_loops):
+        if not any(u.sort == 'pair' for u in check_loops):
             rep.fail('C07.R2', f.where, 'an assignment containing an absent pair (project not on the student\'s list) is rejected', got='no loop rejects None', construct='None check missing')
         else:
             r_none = verdict('pair', {'elem': None})
@@ -901,12 +1053,12 @@ def check_validity(rep, repo):
             rep.check(r_none and not r_obj, 'C07.R2', f.where, 'a pair entry is rejected iff it is None', got='None -> %s, pair -> %s' % ('rejected' if r_none else 'accepted', 'rejected' if r_obj else 'accepted'),
                       construct='None check table')
         # students: no false rejection for counts 0 and 1
-        if any(s_ == 'S' for s_, e in check_loops):
+        if any(u.sort == 'S' for u in check_loops):
             bad = [c for c in (0, 1) if verdict('S', {'c': c, 'lq': 0, 'uq': 0, 'pc': False})]
             n_val += 2
             rep.check(not bad, 'C07.R2', f.where, 'a student with 0 or 1 project is never rejected', got='rejected at count %s' % bad if bad else 'ok', construct='student count table')
         for sort, name in (('P', 'project'), ('L', 'lecturer')):
-            if not any(s_ == sort for s_, e in check_loops):
+            if not any(u.sort == sort for u in check_loops):
                 rep.fail('C07.R2', f.where, '%s quotas are checked' % name, got='no loop over the %ss rejects anything' % name, construct='%s check missing' % name)
                 continue
             mism = []
